@@ -276,7 +276,7 @@ fn check_text(case: &Case, obs: &mut Obs) -> Verdict {
         if !precondition(&fa) {
             return Verdict::Skipped("paragraph fragments violate the precondition penalty width <= next width (custom splitter)");
         }
-        if fa.len() > 70 {
+        if fa.len() > 1500 {
             return Verdict::Skipped("paragraph too long for the text-level parse");
         }
         let lws = para_line_widths(o, k == 0);
@@ -351,6 +351,36 @@ fn extra(cfg: &RunCfg, w: &mut Worker) {
             Case::new("text").text(paras[i].clone()).opt(o)
         })
     });
+    // long sequences: hundreds of lines with two different line widths (line-number bookkeeping over many lines)
+    {
+        let mut r = Rng::stream(cfg.seed, &["C03", "long"], w.id as u64);
+        let reps = if cfg.thorough { 6 } else if w.id < 8 { 1 } else { 0 };
+        for _ in 0..reps {
+            let n = r.range(300, 1400);
+            let mut c = Case::new("frag");
+            c.frags = (0..n).map(|_| Frag { w: r.range(1, 3) as f64, ws: 1.0, pw: 0.0 }).collect();
+            let a = r.range(3, 9) as f64;
+            let b = r.range(3, 12) as f64;
+            c.lws = vec![a, b];
+            c.pen = Some(if r.coin() { Pen::DEFAULT } else { frag::exact_penalties(&mut r, Scale::Small) });
+            w.run_case(&c);
+            *w.stats.counters.entry("long_sequences".to_string()).or_insert(0) += 1;
+        }
+        if cfg.thorough || w.id < 4 {
+            // one long paragraph through wrap() with indents of different widths
+            let words = r.range(300, 700);
+            let mut text = String::new();
+            for _ in 0..words {
+                text.push_str(*r.pick(&["aaa ", "bb ", "c ", "dddd "]));
+            }
+            let mut o = crate::case::OptSpec::new(r.range(6, 12));
+            o.ii = "    ".to_string();
+            o.si = if r.coin() { String::new() } else { "é".to_string() };
+            o.algo = Algo::Optimal(Pen::DEFAULT);
+            w.run_case(&wrap_case("text", text, o));
+            *w.stats.counters.entry("long_paragraphs".to_string()).or_insert(0) += 1;
+        }
+    }
     // exhaustive small fragments satisfying the precondition
     let max = if cfg.thorough { 5 } else { 4 };
     let mut choices = Vec::new();
@@ -414,7 +444,7 @@ pub fn prop() -> Prop {
         panic_is_violation: false,
         budget: (1500000, 48000000),
         extra: Some(extra),
-        required: &["frag_multi_line", "frag_beats_first_fit_arrangement", "frag_two_line_widths", "frag_with_penalty_widths", "crosschecked_by_line_count_dp", "crosschecked_by_brute_force", "text_wrapped_paragraph", "text_custom_penalties", "text_different_indent_widths"],
+        required: &["long_sequences", "long_paragraphs", "frag_multi_line", "frag_beats_first_fit_arrangement", "frag_two_line_widths", "frag_with_penalty_widths", "crosschecked_by_line_count_dp", "crosschecked_by_brute_force", "text_wrapped_paragraph", "text_custom_penalties", "text_different_indent_widths"],
         known: None,
     }
 }
